@@ -253,6 +253,15 @@ def replay(path):
     with open(path) as f:
         body = json.load(f)
     mod = _load(body["property"])
+    if body["violation"]["clause"] == ENV_CLAUSE:
+        a, _ = _fresh_digests(body["property"], body.get("tier", "quick"), [body["seed"]], True)
+        b, _ = _fresh_digests(body["property"], body.get("tier", "quick"), [body["seed"]], False)
+        if a is not None and b is not None and a.get(body["seed"]) != b.get(body["seed"]):
+            print("REPRODUCED property=%s clause=%s digest_match=%s" % (body["property"], ENV_CLAUSE, b.get(body["seed"]) == body.get("event_digest")))
+            print("VIOLATION property=%s replay=%s" % (body["property"], path))
+            return 1
+        print("NOT-REPRODUCED property=%s (the run no longer depends on -O / the locale)" % body["property"])
+        return 0
     r = safe_run(mod, body["seed"], body["tape"], body.get("tier", "quick"), want_case=True)
     if r.get("harness_error"):
         print("HARNESS-ERROR during replay:\n" + r["harness_error"])
@@ -286,24 +295,47 @@ def digests_cmd(check_id, seeds, tier):
     return 0
 
 
-def determinism_selfcheck(check_id, tier, seeds, first_results):
-    """Re-run a few seeds in a fresh interpreter with another PYTHONHASHSEED; digests must agree."""
+ENV_CLAUSE = "depends_on_interpreter_flags_or_locale"
+
+
+def _fresh_digests(check_id, tier, seeds, other_environment):
+    """Digests of the given seeds computed in a fresh interpreter with another PYTHONHASHSEED and, when asked, under
+    another process environment: asserts stripped (-O) and the C locale."""
     env = dict(os.environ)
     env["PYTHONHASHSEED"] = "12345"
     env["VERIF_NO_REEXEC"] = "1"
-    cmd = [sys.executable, "-X", "faulthandler", os.path.join(VERIF, "simv", "cli.py"), "digests", check_id, tier] + [str(s) for s in seeds]
+    flags = ["-X", "faulthandler"]
+    if other_environment:
+        env.update(LC_ALL="C", LANG="C")
+        flags = ["-O"] + flags
+    cmd = [sys.executable] + flags + [os.path.join(VERIF, "simv", "cli.py"), "digests", check_id, tier] + [str(s) for s in seeds]
     try:
         p = subprocess.run(cmd, capture_output=True, text=True, timeout=300, env=env)
     except subprocess.TimeoutExpired:
-        return {"ok": False, "error": "timeout"}
+        return None, "timeout"
     got = {}
     for line in p.stdout.splitlines():
         parts = line.split()
         if len(parts) == 2 and parts[0].lstrip("-").isdigit():
             got[int(parts[0])] = parts[1]
+    return got, p.stderr[-400:]
+
+
+def determinism_selfcheck(check_id, tier, seeds, first_results):
+    """Re-run a few seeds in a fresh interpreter with another PYTHONHASHSEED, asserts stripped (-O) and the C locale;
+    the digests must agree.  A disagreement that disappears in a fresh interpreter WITHOUT the other flags / locale is
+    not a determinism leak of the harness but behaviour of the code under test that depends on the process environment."""
+    got, err = _fresh_digests(check_id, tier, seeds, True)
+    if got is None:
+        return {"ok": False, "error": err}
     mism = [s for s in seeds if got.get(s) != first_results.get(s)]
-    return {"ok": not mism and len(got) == len(seeds), "seeds": len(seeds), "mismatching_seeds": mism,
-            "fresh_interpreter_hashseed": 12345, "stderr_tail": p.stderr[-400:] if mism or p.returncode else ""}
+    out = {"ok": not mism and len(got) == len(seeds), "seeds": len(seeds), "mismatching_seeds": mism,
+           "fresh_interpreter_hashseed": 12345, "fresh_interpreter_flags": "-O, LC_ALL=C", "stderr_tail": err if mism else ""}
+    if mism:
+        plain, err2 = _fresh_digests(check_id, tier, seeds, False)
+        if plain is not None and all(plain.get(s) == first_results.get(s) for s in seeds):
+            out.update(ok=True, environment_dependent_seeds=mism)
+    return out
 
 
 def run_check(check_id, tier="quick", base_seed=0, jobs=None, budget_s=None, runs=None):
@@ -478,6 +510,15 @@ def run_check(check_id, tier="quick", base_seed=0, jobs=None, budget_s=None, run
     if not det.get("ok"):
         print("HARNESS-ERROR: determinism self-check failed: %r" % (det,))
         return 2
+    if det.get("environment_dependent_seeds"):
+        seed0 = det["environment_dependent_seeds"][0]
+        viol = {"clause": ENV_CLAUSE, "sig": {}, "detail": "the run with seed %d gives another response / event history in an interpreter "
+                "started with -O under LC_ALL=C than in the default one (same harness, same tape): behaviour that depends on "
+                "stripped asserts or on the locale" % seed0}
+        path = write_replay(mod, seed0, None, {"digest": first.get(seed0)}, viol, tier)
+        print("VIOLATION property=%s replay=%s" % (mod.ID, path))
+        print("  clause=%s seed=%d: %s" % (ENV_CLAUSE, seed0, viol["detail"]))
+        return 1
     if not results:
         print("HARNESS-ERROR: no runs completed")
         return 2
